@@ -1701,6 +1701,11 @@ var c04Boundary = []string{
 	"sheet ROW 0 0 C 2 1 0 61 ROW 4 1 C 0 0 0 62",
 	"sheet ROW 1 0 C 2 1 0 61 C 2 1 0 62",
 	"sheet ROW 1 0 C 3 1 0 61 C 1 1 0 62",
+	"sheet ROW 1 0 C 9 1 0 61 C 3 1 0 62",
+	"sheet ROW 1 0 C 9 1 0 61 C 3 1 0 62 C 5 1 0 63",
+	"sheet ROW 1 0 C 1 1 0 61 ROW 1048577 0",
+	"sheet ROW 1048577 0 ROW 0 0 C 1 1 0 61",
+	"sheet ROW 2 0 C 1 2 0 61 ROW 3 0 C 1 3 0 62 ROW 1048577 0 ROW 4 0 C 1 4 0 63",
 	"sheet ROW 2 0 C 1 2 0 61 ROW 2 0 C 2 2 0 62",
 	"sheet ROW 3 0 C 1 3 0 61 ROW 1 0 C 1 1 0 62 ROW 0 0 C 0 0 0 63",
 	"sheet ROW 5 0 C 1 5 0 61 ROW 3 0 C 2 3 0 62 ROW 0 0 C 3 4 0 63 ROW 0 0 C 0 0 0 64 ROW 0 0 C 0 0 0 65",
